@@ -37,17 +37,29 @@ _P = _b.PRELUDE.replace(_EW_OLD, _EW_NEW)
 # the bridge adapters of unit `boxed` are not part of this unit: drop the DynEntryWriter / Entry / DynEntry declarations that depend on the old contract
 _P = _P[:_P.index("pub trait DynEntryWriter<'a> {")] + _P[_P.index("// a Cow<str> converts into itself"):_P.index("// ---- entries ---")]
 
-PRELUDE = _P + r'''
+# MetricFlags is extracted from flags.rs with its real representation (an optional reference to the flag set), so that code which looks
+# at it (`flags.0.is_none()`, or a helper such as `is_empty` inlined by R21) is decided instead of being "unsupported"
+_MF_STANDIN = "#[verifier::external_body] pub struct MetricFlags<'a> { _p: &'a u8 }\n"
+assert _MF_STANDIN in _P
+_FID = "pub uninterp spec fn flag_id(f: MetricFlags<'_>) -> int;\n"
+assert _FID in _P
+PRELUDE = _P.replace(_MF_STANDIN, "pub trait MetricOptions {}\n").replace(_FID, """// the identity of a set of flags: 0 for the empty set (flags.rs: `MetricFlags(None)`), else the identity of the option object
+pub uninterp spec fn opt_id(o: &dyn MetricOptions) -> int;
+pub open spec fn flag_id(f: MetricFlags<'_>) -> int { match f.0 { None => 0, Some(o) => opt_id(o) } }
+""") + r'''
 pub open spec fn force_item(i: Item, f: int) -> Item {
     match i { Item::Value(n, c) => Item::Value(n, forced(c, f)), Item::Timestamp(t) => Item::Timestamp(t), Item::Config(c) => Item::Config(c) }
 }
 use std::marker::PhantomData;
-pub uninterp spec fn merged_flags(a: int, b: int) -> int;
+// try_merge (flags.rs, assumed): merging with the empty set yields the other set; two non-empty sets merge to something opaque
+pub uninterp spec fn merged_nonempty(a: int, b: int) -> int;
+pub open spec fn merged_flags(a: int, b: int) -> int { if a == 0 { b } else if b == 0 { a } else { merged_nonempty(a, b) } }
 impl<'a> MetricFlags<'a> {
     // flags.rs try_merge: the union of both flag sets (panics if they conflict: not modelled)
     #[verifier::external_body]
     pub fn try_merge(&self, other: MetricFlags<'a>) -> (r: MetricFlags<'a>) ensures flag_id(r) == merged_flags(flag_id(*self), flag_id(other)) { unimplemented!() }
 }
+
 pub trait FlagConstructor {
     spec fn flag() -> int;
     fn construct() -> (r: MetricFlags<'static>) ensures flag_id(r) == Self::flag();
@@ -74,6 +86,7 @@ _W = r"^impl < W : ValueWriter , FLAGS : FlagConstructor > ValueWriter for Wrapp
 _EW = r"^impl < 'a , W : EntryWriter < 'a > , FLAGS : FlagConstructor > EntryWriter < 'a > for ForceFlagEntryWriter < '_ , W , FLAGS >$"
 
 ITEMS = [
+    dict(kind="struct", file="metrique-writer-core/src/value/flags.rs", name="MetricFlags", attrs=["#[derive(Clone, Copy)]"]),
     dict(kind="struct", file=F, name="ForceFlag", attrs=["#[verifier::reject_recursive_types(T)]", "#[verifier::reject_recursive_types(FLAGS)]"]),
     dict(kind="struct", file=F, name="ForceFlagEntryWriter", attrs=["#[verifier::reject_recursive_types(W)]", "#[verifier::reject_recursive_types(FLAGS)]"]),
     dict(kind="fn", file=F, impl=r"^impl < T , FLAGS : FlagConstructor > From < T > for ForceFlag < T , FLAGS >$", name="from", ret="r", label="ForceFlag::from",
@@ -85,13 +98,15 @@ ITEMS = [
                     "    // C15: what reaches the wrapped writer is the call with the flag forced in\n"
                     "    open spec fn got(self, c: VCall) -> bool { self.0.got(forced(c, FLAGS::flag())) }\n"),
     dict(kind="fn", file=F, inside_fn=_IN, impl=_W, name="metric", label="ForceFlag::Wrapper::metric", impl_trait_args=True, rules={"R14": 2},
-         proofs=[("end", None,
+         proofs=[("start", None,
+                  "let ghost verif_f0 = flag_id(flags); let ghost verif_u0 = unit; let ghost verif_d0 = distribution.elems(); let ghost verif_m0 = dims_view(dimensions.elems());"),
+                 ("end", None,
                   """proof {
-                        let f2 = merged_flags(flag_id(flags), FLAGS::flag());
-                        let (d, m) = choose|d: Seq<Observation>, m: Seq<(Seq<char>, Seq<char>)>| self.0.got(#[trigger] mk_metric(d, unit, m, f2))
-                            && d =~= distribution.elems() && m =~= dims_view(dimensions.elems());
-                        assert(forced(mk_metric(d, unit, m, flag_id(flags)), FLAGS::flag()) == mk_metric(d, unit, m, f2));
-                        assert(self.got(mk_metric(d, unit, m, flag_id(flags))));
+                        let f2 = merged_flags(verif_f0, FLAGS::flag());
+                        let (d, m) = choose|d: Seq<Observation>, m: Seq<(Seq<char>, Seq<char>)>| self.0.got(#[trigger] mk_metric(d, verif_u0, m, f2))
+                            && d =~= verif_d0 && m =~= verif_m0;
+                        assert(forced(mk_metric(d, verif_u0, m, verif_f0), FLAGS::flag()) == mk_metric(d, verif_u0, m, f2));
+                        assert(self.got(mk_metric(d, verif_u0, m, verif_f0)));
                      }""")]),
     dict(kind="fn", file=F, inside_fn=_IN, impl=_W, name="error", label="ForceFlag::Wrapper::error"),
     dict(kind="fn", file=F, impl=_IN[0], name="write", label="<ForceFlag as Value>::write", impl_trait_args=True, rules={"R14": 1}, nested_items_dropped=True,
